@@ -122,10 +122,19 @@ def build_jobs():
                      "old": [{"row": ["ssh", "server-source", "-i", "Vlanif10"], "kids": []}, {"row": ["telnet", "server-source", "-i", "Vlanif10"], "kids": []},
                              {"row": ["sysname", "a"], "kids": []}],
                      "new": [{"row": ["sysname", "b"], "kids": []}]})
+    # `--filter-acl <dir>`: every device has its own <hostname>.acl in that directory; the worker's `stdin` dict (made once per command) and
+    # the args are shared by all devices a process serves
+    two = lambda a, b: [{"row": ["interface", "GE1/0/1"], "kids": [{"row": ["mtu", a], "kids": []}]},
+                        {"row": ["interface", "GE1/0/2"], "kids": [{"row": ["mtu", b], "kids": []}]}]
+    for host, ifname in (("sw1", "GE1/0/1"), ("sw2", "GE1/0/2")):
+        jobs.append({"name": "filterdir:" + host, "kind": "shipped", "model": "Huawei CE6870", "hostname": host,
+                     "filter_acl_file": "interface %s\n    mtu *\n" % ifname, "old": two("1500", "1500"), "new": two("9000", "9100")})
     return jobs
 
 
 _ACL_CACHE = {}
+_STDIN = {"filter_acl": None, "config": None}        # what args.stdin(...) returns when nothing is read from standard input: one dict per command
+_FILTER_DIR = []
 
 
 class _RefGen:      # stands for a generator whose output refers to ...
@@ -166,7 +175,23 @@ def run_job(job):
         ref_track.add(_RefGen, _DefGen)
         ref_track.config(_RefGen, cases.tree(job["ref"]["ref"]))
         ref_track.config(_DefGen, cases.tree(job["ref"]["def"]))
-    d, p = api._diff_and_patch(E.device(hw), old, new, acl, None, False, ref_track=ref_track, rb=rb)
+    flt = None
+    device = E.device(hw)
+    if job.get("filter_acl_file"):
+        import types
+        from annet import gen as anngen
+        if not _FILTER_DIR:
+            raise RuntimeError("filter-acl directory not prepared by the driver")
+        device.hostname = job["hostname"]
+        target = os.path.join(_FILTER_DIR[0], job["hostname"] + ".acl")
+        if not os.path.exists(target):          # job runners work in parallel on one directory: the file appears atomically, once
+            tmp = "%s.%d.tmp" % (target, os.getpid())
+            with open(tmp, "w") as fh:
+                fh.write(job["filter_acl_file"])
+            os.replace(tmp, target)
+        fargs = types.SimpleNamespace(filter_acl=_FILTER_DIR[0], filter_ifaces=[], filter_peers=[], filter_policies=[])
+        flt = anngen.build_filter_acl(None, device, _STDIN, fargs, _FILTER_DIR[0])
+    d, p = api._diff_and_patch(device, old, new, acl, flt, False, ref_track=ref_track, rb=rb)
     res = {"diff": cases.jdiff(d), "cmds": [list(x) for x in fmt.cmd_paths(p)],
            "ordered": E.plain((patching.Orderer(rb["ordering"], job["vendor"]) if job["kind"] == "synthetic" else patching.Orderer.from_hw(hw))
                               .order_config(new))}
@@ -221,6 +246,9 @@ def run(ctx):
             ctx.cov["mc_runs"][-1]["expected"] = "%s violated (regression instance)" % expect
     jobs = build_jobs()
     n = len(jobs)
+    del _FILTER_DIR[:]
+    _FILTER_DIR.append(os.path.join(ctx.scratch, "filteracl"))      # inherited by every forked job runner; removed with the scratch directory
+    os.makedirs(_FILTER_DIR[0], exist_ok=True)
     cfgp = os.path.join(ctx.scratch, "hseq.cfg")
     open(cfgp, "w").write("CONSTANTS\n  MaxLen = %d\n  NJobs = %d\nINIT Init\nNEXT Next\nINVARIANT EmitSeq\n" % (2 if quick else 3, n))
     r = ctx.mc("mc/MC_HistorySeq.tla", cfgp, name="MC_HistorySeq", workers=1)
